@@ -4,7 +4,6 @@ GaphQL types related to introspection queries.
 
 These should be present in all spec compliant servers.
 """
-import json
 from typing import Optional, Union
 
 from .scalars import Boolean, String
@@ -23,6 +22,7 @@ from .types import (
     ObjectType,
     ScalarType,
     UnionType,
+    unwrap_type,
 )
 
 
@@ -313,9 +313,18 @@ def _format_default_value(
         return str(dv).lower()
     elif dv is None:
         return "null"
-    elif isinstance(dv, str):
+    elif isinstance(dv, str) and not isinstance(
+        unwrap_type(input_value.type), EnumType
+    ):
         return '"%s"' % dv
-    return json.dumps(dv)
+
+    # Circular imports.
+    from ..lang import print_ast
+    from ..utilities.ast_node_from_value import ast_node_from_value
+
+    # Format as a GraphQL value of the declared type (enum names, input
+    # objects, lists) and not as JSON.
+    return print_ast(ast_node_from_value(dv, input_value.type))
 
 
 __InputValue__ = ObjectType(
